@@ -1,7 +1,9 @@
 """C11 — the multichannel (LWR) recursion solves the block Yule–Walker system.
 
 Correspondence: lwr_recursion (estimated and exact covariance sequences, nc 1..6, P 1..8),
-autocov_vector, MAR_est_LWR, fit_model (fixed order and criterion-selected, BIC/AIC),
+autocov_vector / crosscov_vector (also on record lengths at and around size thresholds: ops acovs / ccovs,
+sampled entries), MAR_est_LWR, fit_model (fixed order and criterion-selected, BIC/AIC), GrangerAnalyzer
+re-targeted with set_input (op gseq: one object, read / set_input / read histories),
 generate_mar (seeded) on the real code vs the Lean model `Nitime.C11` (complex binary64 matrices,
 Gauss–Jordan inverse; the same `lwr` definition the theorems instantiate at a star ring).
 Oracle (independent of the Lean model): dense numpy — block normal-equation residuals, the
@@ -14,7 +16,10 @@ from common import Case, Failure, flist, parse_flist, clist, parse_clist, call, 
 
 PID = 'C11'
 LEAN_TARGETS = ['Nitime.Props.C11']
-RULE = ('every routine is also run in call sequences on the same argument objects (>=3 evaluations, refilled arrays, fewer/more lags); cases from one PRNG state: covariance sequences estimated from coloured multichannel data (N 64..512, thorough ..4096) '
+RULE = ('every routine is also run in call sequences on the same argument objects (>=3 evaluations, refilled arrays, fewer/more lags); the covariance helper (auto and cross), MAR_est_LWR and fit_model are also run on record lengths AT and AROUND implementation-size thresholds '
+        '(every power of two 256..8192 exactly and within +-nlags of it, quick: one exact + one neighbour per power; thorough: all offsets around 2048/4096, decimal thresholds too; the Lean model is compared on all lags of sampled channel pairs, the oracle on every entry); '
+        'GrangerAnalyzer objects are re-targeted with set_input (same shape / other length / other rate / other channel count) after reading a model-derived attribute and their order/autocov/model_coef/error_cov judged against the NEW data; '
+        'cases from one PRNG state: covariance sequences estimated from coloured multichannel data (N 64..512, thorough ..4096) '
         'or exact covariances of drawn stable VAR processes; nc 1..6, P 1..8; channel permutations; covariance scales 1e-12..1e4; fit_model with fixed order 0..5 '
         'and BIC/AIC-selected order (max_order 10); generate_mar with a fixed numpy seed; distinct = distinct protocol line; '
         'block-Toeplitz systems with cond > 1e6 are skipped and counted')
@@ -23,7 +28,8 @@ ASSUMPTIONS = ['real-valued data (lwr_recursion allocates real coefficient array
                'R(0) symmetric',
                'positive-definiteness of the innovation covariance is NOT proved: per-run eigvalsh certificate whenever the block-Toeplitz matrix of the sequence is positive definite']
 TRUSTED_EXTRA = [
-    'Float (complex binary64 matrix) instance of the MatOps-polymorphic `lwr` approximates the star-ring instance the theorems are about (unproved; bounded by the 1e-8 comparison)',
+    'Float (complex binary64) instance `GSq CF n` of the list-of-rows matrix text approximates its `GSq ℂ n` instance (unproved; bounded by the 1e-8 comparison); that the ℂ instance IS the matrix recursion of the theorems is proved (lwrLoop_concrete, lwr_solves_concrete)',
+    'GrangerAnalyzer as an object: `Model/GrangerObj.lean` (one-time attributes stored on first read, dropped by set_input) is tied to the class by the re-target sequences only (no translator pass over granger.py for C11)',
     'scipy.linalg.inv modelled by its contract inv(X)·X = I (hypothesis of the theorem); the driver uses Gauss–Jordan elimination, compared on every run',
     'np.dot / .conj().T / np.mean modelled as matrix product / conjugate transpose / sum divided by the count',
     'np.random.multivariate_normal is not modelled: generate_mar is compared given the noise it returned',
@@ -64,6 +70,72 @@ def direct_autocov(x, nl):
             for j in range(nc):
                 out[k, i, j] = np.sum(x[i, k:] * np.conj(x[j, :N - k])) / (N - k)
     return out
+
+
+def direct_crosscov(x, y, nl):
+    """R_xy(k)[i, j] = mean over t < N-k of x_i[t+k] conj(y_j[t]) — written from the definition"""
+    x, y = np.asarray(x), np.asarray(y)
+    nc, N = x.shape
+    out = np.empty((nl, nc, nc), dtype=np.result_type(x, y))
+    for k in range(nl):
+        for i in range(nc):
+            for j in range(nc):
+                out[k, i, j] = np.sum(x[i, k:] * np.conj(y[j, :N - k])) / (N - k)
+    return out
+
+
+def judge_gseq(m, impl, fail):
+    """after every (re-)targeting the analyzer must describe the data it holds NOW: returned autocov =
+    lagged average of the current pair rows, coefficients / covariance solve their block Yule–Walker
+    system, order = what a fresh fit_model call on the current rows selects"""
+    _, _, gr = mods()
+    import warnings
+    warnings.simplefilter('ignore')
+    if not impl.startswith('ok'):
+        return fail('raises', 'valid re-target sequence rejected: ' + impl)
+    toks = impl.split()[1:]
+    pos = 0
+    for k, st in enumerate(m['steps']):
+        tag = 'first-use/' if k == 0 else ''          # k = 0 is a single use (no re-targeting yet)
+        data = np.array(parse_flist(st['data'])).reshape(st['nproc'], -1)
+        ij = step_ij(m, st)
+        fresh = []
+        for (i, j) in ij:
+            try:
+                fresh.append(gr.fit_model(data[i], data[j], order=None if m['order'] < 0 else m['order'],
+                                          max_order=m['maxo'], criterion=ut_crit(m['crit'])))
+            except ValueError:
+                fresh = None
+                break
+        if pos < len(toks) and toks[pos] == 'E':
+            if fresh is not None:
+                return fail(tag + 'raises', 'reading the model raised after step %d but fit_model on the current data succeeds' % k)
+            pos += 1
+            continue
+        if fresh is None:
+            return fail(tag + 'no-raise', 'fit_model raises on the data of step %d but the analyzer reported a model' % k)
+        for q, (i, j) in enumerate(ij):
+            if pos + 4 > len(toks):
+                return fail(tag + 'shape', 'missing results for pair (%d,%d) at step %d' % (i, j, k))
+            order = int(toks[pos][1:])
+            mats = lambda tok: np.array(parse_clist(tok)).real.reshape(-1, 2, 2) if tok != '-' else np.zeros((0, 2, 2))
+            Rxx, coef, ecov = mats(toks[pos + 1]), mats(toks[pos + 2]), mats(toks[pos + 3])[0]
+            pos += 4
+            x = np.vstack([data[i], data[j]])
+            where = 'pair (%d,%d) after %s' % (i, j, 'construction' if k == 0 else 'set_input #%d (%s)' % (k, st['kind']))
+            if len(coef) != order or len(Rxx) != order + 1:
+                return fail(tag + 'order-reported', '%s: reported order %d, %d coefficient matrices, %d lags' % (where, order, len(coef), len(Rxx)))
+            want = direct_autocov(x, order + 1)
+            if np.abs(Rxx - want).max() > 1e-9 * np.abs(want).max():
+                return fail(tag + 'autocov', '%s: reported autocov is not the lagged covariance of the data the analyzer holds (off by %.3g, scale %.3g)'
+                            % (where, np.abs(Rxx - want).max(), np.abs(want).max()))
+            f = check_solution(want, coef, ecov, fail, tag=tag)
+            if f:
+                f.what = where + ': ' + f.what
+                return f
+            if order != int(fresh[q][0]):
+                return fail(tag + 'order-selected', '%s: reported order %d, a fresh fit_model call on the current rows gives %d' % (where, order, int(fresh[q][0])))
+    return None
 
 
 def stable_var(nrng, nc, P, rho):
@@ -109,7 +181,17 @@ def run_impl(m):
     if op == 'lwr':
         r = np.array(parse_flist(m['r'])).reshape(-1, m['nc'], m['nc'])
         return call(lambda: (ar.lwr_recursion(r), (lambda a, s: 'ok %s %s' % (rflat(a), rflat(s)))(*ar.lwr_recursion(r)))[1])
+    if op == 'gseq':
+        return call(lambda: run_gseq(m))
     x = np.array(parse_flist(m['x'])).reshape(m['nc'], -1) if 'x' in m else None
+    if op in ('acovs', 'ccovs'):
+        def f():
+            if op == 'acovs':
+                full = ut.autocov_vector(x, nlags=m['nl'])
+            else:
+                full = ut.crosscov_vector(x, np.array(parse_flist(m['y'])).reshape(m['nc'], -1), nlags=m['nl'])
+            return 'ok ' + clist([full[i, j, k] for (i, j) in m['pairs'] for k in range(m['nl'])])
+        return call(f)
     if op == 'acov':
         return call(lambda: (ut.autocov_vector(x, nlags=m['nl']), 'ok ' + rflat(ut.autocov_vector(x, nlags=m['nl']).transpose(2, 0, 1)))[1])
     if op == 'mar':
@@ -141,6 +223,58 @@ def run_impl(m):
     raise ValueError(op)
 
 
+def default_ij(n):
+    """the pairs a GrangerAnalyzer built without `ij` must hold (C12 `defij`): i < j, row by row"""
+    return [(i, j) for j in range(n) for i in range(j)]
+
+
+def step_ij(m, st):
+    return [tuple(q) for q in m['ij']] if m['ij'] is not None else default_ij(st['nproc'])
+
+
+def gseq_objects(m):
+    """the analyzer of a re-target sequence and its inputs"""
+    _, _, gr = mods()
+    import nitime.timeseries as ts
+    inputs = [ts.TimeSeries(np.array(parse_flist(st['data'])).reshape(st['nproc'], -1), sampling_rate=st['Fs'])
+              for st in m['steps']]
+    crit = {'bic': ut_crit('bic'), 'aic': ut_crit('aic')}[m['crit']]
+    G = gr.GrangerAnalyzer(inputs[0], ij=None if m['ij'] is None else [tuple(q) for q in m['ij']],
+                           order=None if m['order'] < 0 else m['order'], max_order=m['maxo'], criterion=crit, n_freqs=16)
+    return G, inputs
+
+
+def ut_crit(name):
+    _, ut, _ = mods()
+    return {'bic': ut.bayesian_information_criterion, 'aic': ut.akaike_information_criterion}[name]
+
+
+def read_model(G, ij, first):
+    """read the four model-derived attributes of every pair (attribute `first` first); tokens"""
+    try:
+        getattr(G, first)
+        toks = []
+        for (i, j) in ij:
+            toks += ['o%d' % int(G.order[i, j]), rflat(np.asarray(G.autocov[i, j]).transpose(2, 0, 1)),
+                     rflat(G.model_coef[i, j]), rflat(G.error_cov[i, j])]
+        return toks
+    except ValueError:
+        return ['E']
+
+
+def run_gseq(m):
+    """GrangerAnalyzer(A); read; set_input(B); read; ... on ONE analyzer object"""
+    import warnings
+    warnings.simplefilter('ignore')
+    G, inputs = gseq_objects(m)
+    toks = []
+    for k, st in enumerate(m['steps']):
+        if k:
+            G.set_input(inputs[k])
+        toks += read_model(G, step_ij(m, st), m['first'][k % len(m['first'])])
+    return 'ok ' + ' '.join(toks)
+
+
 def noise_of(m):
     """the noise generate_mar draws for this seed (numpy's generator is not modelled)"""
     _, ut, _ = mods()
@@ -165,6 +299,15 @@ def line_of(m):
         return 'C11 fitc %s %d %s' % (flist(m['table']), m['maxo'], clist(parse_flist(m['x'])))
     if op == 'gmar':
         return 'C11 gmar %d %s %s' % (m['nc'], clist(parse_flist(m['a'])), rflat(noise_of(m).T))
+    if op in ('acovs', 'ccovs'):
+        prs = ','.join('%d,%d' % tuple(q) for q in m['pairs'])
+        return 'C11 %s %d %d %s %s' % (op, m['nc'], m['nl'], prs, m['x'] if op == 'acovs' else m['x'] + ' ' + m['y'])
+    if op == 'gseq':
+        toks = []
+        for st in m['steps']:
+            ij = step_ij(m, st)
+            toks += ['S:%d:%s:%s' % (st['nproc'], ','.join('%d,%d' % q for q in ij) or '-', st['data']), 'R']
+        return 'C11 gseq %s %d %d %s' % (m['crit'], m['order'], m['maxo'], ' '.join(toks))
 
 
 def cmp_groups(n_exact=0, rtol=1e-8):
@@ -177,6 +320,25 @@ def cmp_groups(n_exact=0, rtol=1e-8):
         fl = lambda zs: [t for z in zs for t in (z.real, z.imag)]
         for x, y in zip(a[n_exact:], b[n_exact:]):
             if not close_vec(fl(parse_clist(x)), fl(parse_clist(y)), rtol, 1e-300):
+                return False
+        return True
+    return f
+
+
+def cmp_tokens(rtol=1e-8):
+    """token by token: `o<order>` / `E` exactly, everything else as complex vectors"""
+    def f(impl, model):
+        if not (impl.startswith('ok') and model.startswith('ok')):
+            return impl == model
+        a, b = impl.split()[1:], model.split()[1:]
+        if len(a) != len(b):
+            return False
+        fl = lambda zs: [t for z in zs for t in (z.real, z.imag)]
+        for x, y in zip(a, b):
+            if x[:1] in 'oE' or y[:1] in 'oE':
+                if x != y:
+                    return False
+            elif not close_vec(fl(parse_clist(x)), fl(parse_clist(y)), rtol, 1e-300):
                 return False
         return True
     return f
@@ -220,6 +382,32 @@ def judge_value(m, impl, clause):
 
     def fail(sym, what):
         return Failure('%s/%s' % (clause, sym), '%s: %s [op %s]' % (clause, what, op), {'meta': m, 'clause': clause})
+    if op in ('acovs', 'ccovs'):
+        # the oracle looks at EVERY entry of a fresh call, not only at the sampled pairs
+        x = np.array(parse_flist(m['x'])).reshape(m['nc'], -1)
+        y = x if op == 'acovs' else np.array(parse_flist(m['y'])).reshape(m['nc'], -1)
+        try:
+            got = ut.autocov_vector(x, nlags=m['nl']) if op == 'acovs' else ut.crosscov_vector(x, y, nlags=m['nl'])
+        except Exception as e:  # noqa
+            return fail('raises', 'valid input rejected: %s' % type(e).__name__)
+        want = direct_crosscov(x, y, m['nl'])
+        got = np.asarray(got).transpose(2, 0, 1)
+        if got.shape != want.shape:
+            return fail('shape', 'shape %r, expected %r' % (got.shape, want.shape))
+        err = np.abs(got - want).max()
+        if not err <= 1e-9 * np.abs(want).max():
+            k = int(np.unravel_index(np.argmax(np.abs(got - want)), want.shape)[0])
+            return fail('value', 'covariance helper differs from mean_t x_i[t+k] y_j[t] by %.3g (scale %.3g) at lag %d for N=%d, nlags=%d'
+                        % (err, np.abs(want).max(), k, x.shape[1], m['nl']))
+        if impl.startswith('ok'):
+            smp = np.array(parse_clist(impl.split()[1]))
+            ws = np.array([want[k, i, j] for (i, j) in m['pairs'] for k in range(m['nl'])])
+            if smp.shape != ws.shape or not np.abs(smp - ws).max() <= 1e-9 * np.abs(want).max():
+                return fail('value', 'sampled entries differ from the lagged average')
+            return None
+        return fail('raises', 'valid input rejected: ' + impl)
+    if op == 'gseq':
+        return judge_gseq(m, impl, fail)
     if op == 'fitc':
         tbl = m['table']
         want = None
@@ -393,6 +581,12 @@ def sequence_judge(m, clause):
             syms = ar_seq.run_schedule({'fit': lambda: fit(x)}, ['fit'] * 3, [x])
             if not syms:
                 syms = ar_seq.refill_check(lambda arr, _: fit(arr), x, x2, [0])
+    elif op in ('acovs', 'ccovs'):
+        x = np.array(parse_flist(m['x'])).reshape(nc, -1)
+        y = x if op == 'acovs' else np.array(parse_flist(m['y'])).reshape(nc, -1)
+        nl = m['nl']
+        syms = ar_seq.run_schedule({'ccov': lambda: ut.crosscov_vector(x, y, nlags=nl),
+                                    'acov': lambda: ut.autocov_vector(x, nlags=nl)}, ['ccov', 'acov', 'ccov', 'acov', 'ccov'], [x, y])
     elif op == 'gmar':
         a = np.array(parse_flist(m['a'])).reshape(-1, nc, nc)
         cov = np.array(parse_flist(m['cov'])).reshape(nc, nc)
@@ -426,6 +620,33 @@ def solve_dense(r, P):
 
 
 # ------------------------------------------------------------------ cases
+POWERS = [256, 512, 1024, 2048, 4096, 8192]
+
+
+def threshold_lengths(nrng, big):
+    """(N, nlags): record lengths at and around the sizes at which an implementation plausibly switches
+    algorithm (FFT / blocking / pairwise summation): every power of two exactly, and N within
+    +-nlags of it (zero padding shorter than the lag range wraps around)"""
+    out = []
+    for p in POWERS:
+        nl = int(nrng.randint(2, 10))
+        out.append((p, nl))
+        offs = [o for o in range(-nl, nl + 1) if o != 0]
+        if big and p in (2048, 4096):
+            chosen = offs
+        else:
+            chosen = [int(o) for o in nrng.choice(offs, size=4 if big else 1, replace=False)]
+        out += [(p + o, nl) for o in chosen]
+    if big:
+        for p in (1000, 5000, 10000):
+            nl = int(nrng.randint(2, 10))
+            out += [(p - 1, nl), (p, nl), (p + 1, nl)]
+        out += [(512, 33), (1024, 64), (2048, 17), (4096 - 14, 16)]
+    else:
+        out += [(4096 - int(nrng.randint(1, 8)), 9), (512, 33)]
+    return out
+
+
 def mk_case(m, clause, cmp):
     return Case(line_of(m), run_impl(m), clause, cmp=cmp, meta=m)
 
@@ -509,6 +730,76 @@ def cases(rng, tier, seed):
         mo = int(nrng.choice([10, 10, 5, 3, 2]))
         m = {'op': 'fitc', 'nc': 2, 'table': tbl, 'maxo': mo, 'x': flist(xw.reshape(-1))}
         out.append(mk_case(m, 'fit/selected/table', cmp_groups(n_exact=1)))
+    # --- record lengths at / around implementation-size thresholds: helper (sampled in the model, all entries in
+    #     the oracle), MAR_est_LWR, fit_model
+    lens = threshold_lengths(nrng, big)
+    for t, (N, nl) in enumerate(lens):
+        nc = int(nrng.randint(1, 4))
+        x = coloured(nrng, nc, N) * float(nrng.choice([1.0, 1e-3, 30.0])) + (0.5 if t % 2 else 0.0)
+        allp = [(i, j) for i in range(nc) for j in range(nc)]
+        pairs = [list(allp[q]) for q in nrng.permutation(len(allp))[:3]]
+        m = {'op': 'acovs', 'nc': nc, 'nl': nl, 'pairs': pairs, 'x': flist(x.reshape(-1))}
+        out.append(mk_case(m, 'autocov/size-threshold', cmp_groups(rtol=1e-9)))
+    n_cc = 4 if not big else 30
+    for t in range(n_cc):
+        N, nl = lens[int(nrng.randint(0, len(lens)))] if t else (2048, 5)
+        nc = int(nrng.randint(1, 4))
+        x = coloured(nrng, nc, N) + 0.3
+        y = coloured(nrng, nc, N) * 2.0 - 0.2
+        allp = [(i, j) for i in range(nc) for j in range(nc)]
+        pairs = [list(allp[q]) for q in nrng.permutation(len(allp))[:3]]
+        m = {'op': 'ccovs', 'nc': nc, 'nl': nl, 'pairs': pairs, 'x': flist(x.reshape(-1)), 'y': flist(y.reshape(-1))}
+        out.append(mk_case(m, 'crosscov/size-threshold', cmp_groups(rtol=1e-9)))
+    n_big = 3 if not big else 24
+    for t in range(n_big):
+        N = [2048, 4096][t] if t < 2 else lens[int(nrng.randint(0, len(lens)))][0]
+        nc = int(nrng.randint(2, 4))
+        x = coloured(nrng, nc, N) + (0.25 if t % 2 else 0.0)
+        order = int(nrng.randint(1, 6))
+        if np.linalg.cond(block_toeplitz(direct_autocov(x, order + 1), order)) < COND_MAX:
+            m = {'op': 'mar', 'nc': nc, 'order': order, 'x': flist(x.reshape(-1))}
+            out.append(mk_case(m, 'mar/size-threshold', cmp_groups()))
+        x2 = coloured(nrng, 2, N if t != 1 else 2048)
+        if t % 2 == 0:
+            m = {'op': 'fit', 'nc': 2, 'crit': 'bic', 'order': int(nrng.randint(1, 6)), 'maxo': 10, 'x': flist(x2.reshape(-1))}
+            out.append(mk_case(m, 'fit/fixed/size-threshold', cmp_groups(n_exact=1)))
+        else:
+            m = {'op': 'fit', 'nc': 2, 'crit': ['bic', 'aic'][(t // 2) % 2], 'order': -1, 'maxo': 10, 'x': flist(x2.reshape(-1))}
+            out.append(mk_case(m, 'fit/selected/size-threshold', cmp_groups(n_exact=1)))
+    # --- GrangerAnalyzer re-targeted with set_input after its model was read
+    n_seq = 8 if not big else 60
+    kinds = ['same-shape', 'other-length', 'other-rate', 'other-channels']
+    attrs = ['model_coef', 'error_cov', 'order', 'autocov', 'causality_xy']
+    for t in range(n_seq):
+        nproc = int(nrng.choice([2, 3]))
+        explicit = t % 3 == 1
+        N = int(nrng.choice([128, 200, 256]))
+        Fs = float(nrng.choice([1.0, 2.0, 0.5, 1000.0]))
+        steps = [{'nproc': nproc, 'Fs': Fs, 'kind': 'construct',
+                  'data': flist((coloured(nrng, nproc, N) * float(nrng.choice([1.0, 1e-3, 50.0]))).reshape(-1))}]
+        for u in range(1 + (t % 2)):
+            kind = kinds[(t + u) % 4]
+            if kind == 'other-channels' and explicit:
+                kind = 'same-shape'
+            np2, N2, Fs2 = nproc, N, Fs
+            if kind == 'other-length':
+                N2 = int(nrng.choice([n for n in (96, 128, 200, 256, 400) if n != N]))
+            elif kind == 'other-rate':
+                Fs2 = Fs * 4.0
+            elif kind == 'other-channels':
+                np2 = 5 - nproc
+            d2 = coloured(nrng, np2, N2) * float(nrng.choice([1.0, 3.0, 1e-2])) + (0.1 if u else 0.0)
+            steps.append({'nproc': np2, 'Fs': Fs2, 'kind': kind, 'data': flist(d2.reshape(-1))})
+        if explicit:
+            allp = [(a, b) for a in range(nproc) for b in range(nproc) if a != b]
+            ij = [list(allp[q]) for q in nrng.permutation(len(allp))[:int(nrng.randint(1, 4))]]
+        else:
+            ij = None
+        sel = t % 3 == 2
+        m = {'op': 'gseq', 'nc': 2, 'crit': ['bic', 'aic'][t % 2], 'order': -1 if sel else int(nrng.randint(1, 5)), 'maxo': 10,
+             'ij': ij, 'steps': steps, 'first': [attrs[(t + q) % len(attrs)] for q in range(3)]}
+        cl = 'analyzer/retarget/' + '+'.join(st['kind'] for st in steps[1:])
+        out.append(mk_case(m, cl, cmp_tokens()))
     # --- generate_mar
     n_g = 30 if not big else 200
     for i in range(n_g):
